@@ -52,4 +52,12 @@ PROPS = {
     "C13": dict(
         lean_core=["Props.C13"], lean_code=[], gen_funcs=[], harness="c13",
         assumptions=["_cleanup catches only ValidateTransactionError; other exceptions cannot arise for a pooled transaction and are treated as eviction in the model"]),
+    "C12": dict(
+        lean_core=["Props.C13", "Props.C02", "Props.C12"], lean_code=[], gen_funcs=[], harness="c12",
+        assumptions=["partial: the clock corner head.timestamp >= clock + 30 is the known finding D5",
+                     "candidate fits in one block (hsize); head id is not all zeros and its by-height index is stored (true of every state built from well-formed arrivals)"]),
+    "C20": dict(
+        lean_core=["Props.C13", "Props.C09", "Props.C11", "Props.C20"], lean_code=[], gen_funcs=[], harness="c20",
+        assumptions=["per message: valid messages earlier in a stream have their legitimate effects",
+                     "thread interleavings between the miner thread and the networking thread are not exhibited by the model"]),
 }
